@@ -16,7 +16,7 @@ EXPLANATION = (
     "(R05.4) tombstone GC (the only non-reset writer of the watermark) runs only from the gossip round; (R05.5) for the "
     "owner's copy every delta an honest — possibly stale or duplicated — peer can send (delta max <= own max, delta gc <= own "
     "max) is rejected by the extracted admission table, for all orderings; (R05.6) a sender offers nothing unless its copy is "
-    "ahead of the digest; (R05.7) a key-value is only ever serialised under its own member header. 'No message from honest "
+    "ahead of the digest; (R05.7) a key-value is only ever serialised under its own member header; (R05.8 = C04/R04.1) every local write publishes a version equal to the owner's new max_version (a key-value above the owner's own max lets a peer get ahead of the owner); (R05.9 = C04/R04.3) the raw setters are reachable on the receive path only through catch-up, never around admission. 'No message from honest "
     "peers alters own key-values' then follows because no honest copy is ahead of the owner — an induction over histories that "
     "is NOT checked.")
 TRUSTED = ["the honest-copy invariant (a peer's max and gc never exceed the owner's max) — C03's undecided induction"]
@@ -36,9 +36,9 @@ def run(ctx):
     # (seed R2-C05-1) and (b) no receive path to the raw setters that bypasses admission (seed R2-C05-2)
     from . import c04
     c04.r04_1(ctx, rep, roles)
-    ctx.report.rules[-1].id = "R05.7(R04.1)"
+    ctx.report.rules[-1].id = "R05.8(R04.1)"
     c04.r04_3(ctx, rep, roles)
-    ctx.report.rules[-1].id = "R05.8(R04.3)"
+    ctx.report.rules[-1].id = "R05.9(R04.3)"
 
 
 PUB_CHITCHAT_MUT = {"self_node_state": "own copy only", "catchup": "documented catch-up entry (C18)"}
